@@ -193,6 +193,29 @@ def gen_wal():
     return "\n".join(L) + "\n"
 
 
+def gen_header():
+    """storage/page.rs -> Gen/GenHeader.v: size of the persisted aborted-transaction bitmap and the shape of its three operations"""
+    c = harness_consts()
+    src = read("storage/page.rs")
+    for k in ["aborted_bitmap_size", "max_tracked_aborted_txs"]:
+        need(k in c, f"axv consts lacks {k}")
+    mark = fn_body(src, r"pub\(crate\) fn mark_transaction_aborted\(&mut self, txid: TransactionId\) \{", "mark_transaction_aborted")
+    need(re.search(r"if txid < MAX_TRACKED_ABORTED_TXS as u64 \{", mark), "mark_transaction_aborted: bound test")
+    need(re.search(r"byte_idx = \(txid / 8\) as usize", mark) and re.search(r"bit_idx = \(txid % 8\) as u8", mark)
+         and re.search(r"aborted_txs_bitmap\[byte_idx\] \|= 1 << bit_idx", mark), "mark_transaction_aborted: bit arithmetic")
+    isab = fn_body(src, r"pub\(crate\) fn is_transaction_aborted\(&self, txid: TransactionId\) -> bool \{", "is_transaction_aborted")
+    need(re.search(r"if txid >= MAX_TRACKED_ABORTED_TXS as u64 \{\s*return false;", isab)
+         and re.search(r"\(self\.aborted_txs_bitmap\[byte_idx\] & \(1 << bit_idx\)\) != 0", isab), "is_transaction_aborted: shape")
+    clr = fn_body(src, r"pub\(crate\) fn clear_aborted_up_to\(&mut self, max_txid: TransactionId\) \{", "clear_aborted_up_to")
+    need(re.search(r"for txid in 0\.\.=max_txid\.min\(MAX_TRACKED_ABORTED_TXS as u64 - 1\)", clr)
+         and re.search(r"aborted_txs_bitmap\[byte_idx\] &= !\(1 << bit_idx\)", clr), "clear_aborted_up_to: shape")
+    L = ["(* GENERATED by tools/gen_tables.py from storage/page.rs and `axv consts` -- do not edit *)",
+         "From Coq Require Import NArith.", "Open Scope N_scope.",
+         f"Definition aborted_bitmap_size : N := {c['aborted_bitmap_size']}.",
+         f"Definition max_tracked_aborted_txs : N := {c['max_tracked_aborted_txs']}."]
+    return "\n".join(L) + "\n"
+
+
 # ------------------------------------------------------------------------------------------
 # sql/parser/mod.rs -> Gen/GenPratt.v  (binding powers of the Pratt expression parser)
 # ------------------------------------------------------------------------------------------
@@ -243,7 +266,7 @@ def gen_pratt():
     return "\n".join(L) + "\n"
 
 
-GENERATORS = {"GenWire.v": gen_wire, "GenWal.v": gen_wal, "GenPratt.v": gen_pratt}
+GENERATORS = {"GenWire.v": gen_wire, "GenWal.v": gen_wal, "GenPratt.v": gen_pratt, "GenHeader.v": gen_header}
 
 
 def main(argv):
